@@ -38,7 +38,8 @@ impl GLWEBlindRetriever {
     where
         A: GLWEInfos,
     {
-        let bit_size: usize = (u32::BITS - (size as u32 - 1).leading_zeros()) as usize;
+        // at least one accumulator: a single input is returned as is (size = 1 used to allocate none and panic in add/flush)
+        let bit_size: usize = ((u32::BITS - (size as u32 - 1).leading_zeros()) as usize).max(1);
         Self {
             accumulators: (0..bit_size).map(|_| Accumulator::alloc(infos)).collect_vec(),
             counter: 0,
